@@ -32,41 +32,45 @@ type literal struct {
 	truth bool
 }
 
-// dnf expands "e == truth" into alternatives of leaf literals.
-func dnf(e ast.Expr, truth bool) [][]literal {
-	e = unparen(e)
-	switch x := e.(type) {
-	case *ast.UnaryExpr:
-		if x.Op == token.NOT {
-			return dnf(x.X, !truth)
-		}
-	case *ast.BinaryExpr:
-		isAnd := x.Op == token.LAND
-		isOr := x.Op == token.LOR
-		if isAnd || isOr {
-			// (A && B) true  = A true , B true            (product)
-			// (A && B) false = A false | A true , B false  (short-circuit order)
-			// (A || B) true  = A true | A false , B true
-			// (A || B) false = A false , B false
-			if (isAnd && truth) || (isOr && !truth) {
-				var out [][]literal
-				for _, a := range dnf(x.X, truth) {
-					for _, b := range dnf(x.Y, truth) {
-						out = append(out, append(append([]literal{}, a...), b...))
-					}
-				}
-				return out
-			}
-			out := dnf(x.X, truth)
-			for _, a := range dnf(x.X, !truth) {
-				for _, b := range dnf(x.Y, truth) {
+// dnf expands "condition == truth" into alternatives of leaf literals (short-circuit order). It works on
+// the boolean structure of the canonical value (boolean locals unfolded), so `atomic := !p.Skip; if atomic ||`
+// yields the same literals as the inlined condition.
+func dnf(g *Graph, e ast.Expr, truth bool, whole func(ast.Expr) bool) [][]literal {
+	return dnfForm(g.formulaOf(e), truth, whole)
+}
+
+// whole(e) reports that some atom recognises the compound expression e as a unit: it is then a leaf.
+func dnfForm(f *bform, truth bool, whole func(ast.Expr) bool) [][]literal {
+	if f.op != "leaf" && f.expr != nil && whole != nil && whole(f.expr) {
+		return [][]literal{{{f.expr, truth}}}
+	}
+	switch f.op {
+	case "not":
+		return dnfForm(f.kids[0], !truth, whole)
+	case "and", "or":
+		isAnd := f.op == "and"
+		// (A && B) true  = A true , B true            (product)
+		// (A && B) false = A false | A true , B false  (short-circuit order)
+		// (A || B) true  = A true | A false , B true
+		// (A || B) false = A false , B false
+		if (isAnd && truth) || (!isAnd && !truth) {
+			var out [][]literal
+			for _, a := range dnfForm(f.kids[0], truth, whole) {
+				for _, b := range dnfForm(f.kids[1], truth, whole) {
 					out = append(out, append(append([]literal{}, a...), b...))
 				}
 			}
 			return out
 		}
+		out := dnfForm(f.kids[0], truth, whole)
+		for _, a := range dnfForm(f.kids[0], !truth, whole) {
+			for _, b := range dnfForm(f.kids[1], truth, whole) {
+				out = append(out, append(append([]literal{}, a...), b...))
+			}
+		}
+		return out
 	}
-	return [][]literal{{{e, truth}}}
+	return [][]literal{{{f.leaf, truth}}}
 }
 
 // EnumOpts: StopAt ends a path at the first node satisfying it (the node is recorded in Stopped);
@@ -101,12 +105,25 @@ func (g *Graph) EnumPathsOpt(atoms []NamedAtom, maxPaths int, opt EnumOpts) ([]P
 		return nil
 	}
 	type benv map[types.Object]bool
+	fi := g.flags()
+	whole := func(e ast.Expr) bool {
+		for _, na := range atoms {
+			if ok, _ := na.A.Match(g, e); ok {
+				return true
+			}
+		}
+		return false
+	}
 	onStack := map[*cfg.Block]bool{}
 	var err error
-	var walkE func(b *cfg.Block, val map[string]bool, nodes []ast.Node, env benv)
-	walk := func(b *cfg.Block, val map[string]bool, nodes []ast.Node) { walkE(b, val, nodes, benv{}) }
-	walkE = func(b *cfg.Block, val map[string]bool, nodes []ast.Node, env benv) {
-		walk := func(b *cfg.Block, val map[string]bool, nodes []ast.Node) { walkE(b, val, nodes, env) }
+	var initFe flagEnv
+	if fi != nil {
+		initFe = make(flagEnv, len(fi.idx))
+	}
+	var walkE func(b *cfg.Block, val map[string]bool, nodes []ast.Node, env benv, fe flagEnv)
+	walk := func(b *cfg.Block, val map[string]bool, nodes []ast.Node) { walkE(b, val, nodes, benv{}, initFe) }
+	walkE = func(b *cfg.Block, val map[string]bool, nodes []ast.Node, env benv, fe flagEnv) {
+		walk := func(b *cfg.Block, val map[string]bool, nodes []ast.Node) { walkE(b, val, nodes, env, fe) }
 		if err != nil {
 			return
 		}
@@ -125,6 +142,9 @@ func (g *Graph) EnumPathsOpt(atoms []NamedAtom, maxPaths int, opt EnumOpts) ([]P
 					err = fmt.Errorf("more than %d paths", maxPaths)
 				}
 				return
+			}
+			if fi != nil {
+				fe = fi.apply(fe, n)
 			}
 			if opt.BoolVars {
 				// flag := <bool const> / flag = <bool const>; anything else assigned to a tracked flag forgets it
@@ -159,6 +179,9 @@ func (g *Graph) EnumPathsOpt(atoms []NamedAtom, maxPaths int, opt EnumOpts) ([]P
 				}
 			}
 		}
+		if isSelectDeadEnd(b) {
+			return
+		}
 		if len(b.Succs) == 0 {
 			pi := PathInfo{Val: val, Nodes: nodes, Exit: b}
 			if len(b.Nodes) > 0 {
@@ -178,7 +201,10 @@ func (g *Graph) EnumPathsOpt(atoms []NamedAtom, maxPaths int, opt EnumOpts) ([]P
 				walk(s, val, nodes)
 				continue
 			}
-			for _, alt := range dnf(cond, si == 0) {
+			if fi != nil && !g.feasible(fi, b, si, fe) {
+				continue // refuted by the constant / nil-ness flags set earlier on this path
+			}
+			for _, alt := range dnf(g, cond, si == 0, whole) {
 				nv := map[string]bool{}
 				for k, v := range val {
 					nv[k] = v
@@ -192,8 +218,11 @@ func (g *Graph) EnumPathsOpt(atoms []NamedAtom, maxPaths int, opt EnumOpts) ([]P
 							}
 						}
 					}
+					if lit.e == nil {
+						continue
+					}
 					for _, na := range atoms {
-						if ok, sense := na.A.Match(g, lit.e); ok {
+						if ok, sense := matchN(g, na.A, lit.e); ok {
 							v := lit.truth == sense
 							if old, had := nv[na.Name]; had && old != v {
 								feasible = false
